@@ -56,7 +56,7 @@ func Budget(tier string) *run.Deadline {
 	if tier == "thorough" {
 		return run.NewDeadline(20 * time.Minute)
 	}
-	return run.NewDeadline(100 * time.Second)
+	return run.NewDeadline(400 * time.Second)
 }
 
 // NewStore makes a store double whose Add/Get are scheduling points.
